@@ -100,11 +100,11 @@ def plan_jobs(prop, tier, rnd):
     elif prop == "C07":
         slices = [("M", 3), ("B", 3), ("F", 3)]
     elif prop == "C14":
-        slices = [("T", 3), ("Y", 4), ("B", 3), ("F", 3)]
+        slices = [("T", 3), ("Y", 4), ("B", 3), ("F", 3), ("Z", 3), ("C", 3)]
     elif prop == "C15":
         slices = [("M", 3), ("Y", 4), ("B", 3), ("F", 3), ("V", 3)]
     else:
-        slices = [("Y", 4), ("T", 3), ("B", 3), ("F", 3)]
+        slices = [("Y", 4), ("T", 3), ("B", 3), ("F", 3), ("C", 3), ("Z", 3)]
     pools, stats = histories_for(slices, rnd)
     names = [s for s, _ in slices]
     jobs = []
